@@ -18,7 +18,7 @@ pub const DEF: PropDef = PropDef {
 
 fn jobs(plan: &Plan) -> Vec<Job> {
     let t = plan.tier;
-    entry_jobs(plan, "C12", "dense", t.pick(150, 900, 1), |d| d.flags.dense || d.flags.dense_nodes > 0)
+    entry_jobs(plan, "C12", "dense", t.pick(150, 6000, 1), |d| d.flags.dense || d.flags.dense_nodes > 0)
 }
 
 fn required(plan: &Plan) -> Vec<String> {
